@@ -729,11 +729,13 @@ func constants(repo string) {
 
 // ==== BEGIN C20/C06 addition (builder "reply"): simRegistry ==============================================
 // T5b: the terminal simulator's handler table (terminal/handle.go defaultProtocolHandles) in source order:
-//   (command, (ReplyProtocol, Protocol, ReplyBody declarer)) where the model type is found behind the
-//   value expression (&model.T{}, a local constructor newX(...) returning &model.T{...}, or
-//   newDefaultHandle(consts.C) whose switch assigns &model.T{...}); "ReplyBody declarer" = Protocol() of the
-//   type that declares the ReplyBody method the handler ends up with (0: BaseHandle's general response,
-//   65535: the simulator's defaultHandle wrapper, whose ReplyBody returns nil).
+//
+//	(command, (ReplyProtocol, Protocol, ReplyBody declarer)) where the model type is found behind the
+//	value expression (&model.T{}, a local constructor newX(...) returning &model.T{...}, or
+//	newDefaultHandle(consts.C) whose switch assigns &model.T{...}); "ReplyBody declarer" = Protocol() of the
+//	type that declares the ReplyBody method the handler ends up with (0: BaseHandle's general response,
+//	65535: the simulator's defaultHandle wrapper, whose ReplyBody returns nil).
+//
 // and, for the server's createDefaultHandle, (registered id, ReplyBody declarer) in source order.
 func replyBodyDeclarer(model map[string]*ast.File, typ string, depth int) (int64, bool) {
 	if depth > 3 {
@@ -787,250 +789,262 @@ func mapLiteral(fd *ast.FuncDecl) *ast.CompositeLit {
 }
 
 func simRegistry(term, svc, model map[string]*ast.File) {
-	// --- the simulator
-	fd := findFunc(term, "", "defaultProtocolHandles")
-	if fd == nil {
-		fail("sim_registry", "defaultProtocolHandles not found")
-		return
-	}
-	lit := mapLiteral(fd)
-	if lit == nil {
-		fail("sim_registry", "map literal not found")
-		return
-	}
-	// newDefaultHandle: case consts.C: tmp = &model.T{...}
-	wrapped := map[int64]string{}
-	if nd := findFunc(term, "", "newDefaultHandle"); nd != nil {
-		ast.Inspect(nd.Body, func(n ast.Node) bool {
-			if cc, ok := n.(*ast.CaseClause); ok {
-				for _, e := range cc.List {
-					if v, ok := intOf(e, nil); ok {
-						for _, st := range cc.Body {
-							if t := firstModelLit(st); t != "" {
-								wrapped[v] = t
+	func() { // independent part: a shape not recognised here must not hide the other outputs
+		// --- the simulator
+		fd := findFunc(term, "", "defaultProtocolHandles")
+		if fd == nil {
+			fail("sim_registry", "defaultProtocolHandles not found")
+			return
+		}
+		lit := mapLiteral(fd)
+		if lit == nil {
+			fail("sim_registry", "map literal not found")
+			return
+		}
+		// newDefaultHandle: case consts.C: tmp = &model.T{...}
+		wrapped := map[int64]string{}
+		if nd := findFunc(term, "", "newDefaultHandle"); nd != nil {
+			ast.Inspect(nd.Body, func(n ast.Node) bool {
+				if cc, ok := n.(*ast.CaseClause); ok {
+					for _, e := range cc.List {
+						if v, ok := intOf(e, nil); ok {
+							for _, st := range cc.Body {
+								if t := firstModelLit(st); t != "" {
+									wrapped[v] = t
+								}
 							}
-						}
-					}
-				}
-			}
-			return true
-		})
-	}
-	wrapperHasReplyBody := findFunc(term, "defaultHandle", "ReplyBody") != nil
-	var rows []string
-	for _, el := range lit.Elts {
-		kv, ok := el.(*ast.KeyValueExpr)
-		if !ok {
-			fail("sim_registry", "element")
-			return
-		}
-		id, ok := intOf(kv.Key, nil)
-		if !ok {
-			fail("sim_registry", "key")
-			return
-		}
-		typ, isWrapped := "", false
-		switch v := kv.Value.(type) {
-		case *ast.UnaryExpr:
-			typ = firstModelLit(v)
-		case *ast.CallExpr:
-			if fn, ok := v.Fun.(*ast.Ident); ok {
-				if fn.Name == "newDefaultHandle" && len(v.Args) == 1 {
-					if c, ok := intOf(v.Args[0], nil); ok {
-						typ, isWrapped = wrapped[c], true
-					}
-				} else if cf := findFunc(term, "", fn.Name); cf != nil {
-					typ = firstModelLit(cf.Body)
-				}
-			}
-		}
-		rid, ok2 := constMethod(model, typ, "ReplyProtocol", 0)
-		prot, ok3 := constMethod(model, typ, "Protocol", 0)
-		decl, ok4 := replyBodyDeclarer(model, typ, 0)
-		if isWrapped {
-			if !wrapperHasReplyBody {
-				fail("sim_registry", "defaultHandle.ReplyBody not found")
-				return
-			}
-			decl, ok4 = 65535, true
-		}
-		if typ == "" || !ok2 || !ok3 || !ok4 {
-			fail("sim_registry", fmt.Sprintf("handler of %d (%s)", id, typ))
-			return
-		}
-		rows = append(rows, fmt.Sprintf("(%d, (%d, %d, %d))", id, rid, prot, decl))
-	}
-	fmt.Fprintf(&out, "(* terminal defaultProtocolHandles in source order: (command, (ReplyProtocol, Protocol, ReplyBody declarer)) *)\n")
-	fmt.Fprintf(&out, "Definition gen_sim_registry : list (N * (N * N * N)) := [%s].\n\n", strings.Join(rows, "; "))
-	// --- the server: which ReplyBody each registered type ends up with
-	sf := findFunc(svc, "GoJT808", "createDefaultHandle")
-	if sf == nil {
-		fail("reply_body_decl", "createDefaultHandle not found")
-		return
-	}
-	sl := mapLiteral(sf)
-	if sl == nil {
-		fail("reply_body_decl", "map literal not found")
-		return
-	}
-	rows = nil
-	for _, el := range sl.Elts {
-		kv := el.(*ast.KeyValueExpr)
-		id, ok := intOf(kv.Key, nil)
-		typ := firstModelLit(kv.Value)
-		decl, ok2 := replyBodyDeclarer(model, typ, 0)
-		if !ok || typ == "" || !ok2 {
-			fail("reply_body_decl", fmt.Sprintf("handler of %d (%s)", id, typ))
-			return
-		}
-		rows = append(rows, fmt.Sprintf("(%d, %d)", id, decl))
-	}
-	fmt.Fprintf(&out, "(* createDefaultHandle in source order: (registered id, ReplyBody declarer) *)\n")
-	fmt.Fprintf(&out, "Definition gen_reply_body_decl : list (N * N) := [%s].\n\n", strings.Join(rows, "; "))
-	// --- per-connection construction.  Three outcomes:
-	//   true   RECOGNISED and right: inside GoJT808.Run's accept loop (the `for` that calls AcceptTCP), directly or
-	//          through ONE level of helper function / method of this package called in the loop, both
-	//          createDefaultHandle() and newConnection(...) are called; every value of createDefaultHandle's map literal
-	//          is a fresh &model.T{} (checked above); newConnection's composite literal makes msgChan / reissuePackChan
-	//          and sets platformSerialNumber
-	//   false  RECOGNISED and wrong: createDefaultHandle (or newConnection) is called, but NOT inside the loop (a
-	//          handler map built once and shared), or newConnection's literal takes one of the three fields from
-	//          something that is not made per call
-	//   (omitted, listed in gen_unrecognised) the shape is NOT recognised: no accept loop / no call site of
-	//          createDefaultHandle anywhere / newConnection or its literal not found.  bin/check then reports the tie as
-	//          unavailable (NOTE) and the correspondence decides; it never reports a broken obligation for it.
-	calledNames := func(n ast.Node) map[string]bool {
-		seen := map[string]bool{}
-		ast.Inspect(n, func(m ast.Node) bool {
-			if c, ok := m.(*ast.CallExpr); ok {
-				switch f := c.Fun.(type) {
-				case *ast.SelectorExpr:
-					seen[f.Sel.Name] = true
-				case *ast.Ident:
-					seen[f.Name] = true
-				}
-			}
-			return true
-		})
-		return seen
-	}
-	funcByName := func(name string) *ast.FuncDecl { // any function or method of package service with that name
-		for _, f := range svc {
-			for _, d := range f.Decls {
-				if fd, ok := d.(*ast.FuncDecl); ok && fd.Name.Name == name && fd.Body != nil {
-					return fd
-				}
-			}
-		}
-		return nil
-	}
-	perConn, recognised, why := false, false, ""
-	if run := findFunc(svc, "GoJT808", "Run"); run == nil {
-		why = "GoJT808.Run not found"
-	} else {
-		var loop *ast.ForStmt
-		ast.Inspect(run.Body, func(n ast.Node) bool {
-			if fs, ok := n.(*ast.ForStmt); ok && loop == nil && calledNames(fs.Body)["AcceptTCP"] {
-				loop = fs
-			}
-			return true
-		})
-		if loop == nil {
-			why = "no accept loop (for ... AcceptTCP) in GoJT808.Run"
-		} else {
-			inside := calledNames(loop.Body)
-			for name := range calledNames(loop.Body) { // one level of helper
-				if name == "createDefaultHandle" || name == "newConnection" {
-					continue
-				}
-				if fd := funcByName(name); fd != nil {
-					for k := range calledNames(fd.Body) {
-						inside[k] = true
-					}
-				}
-			}
-			// every call site of the two constructors in the package
-			anywhere := map[string]bool{}
-			for _, f := range svc {
-				for k := range calledNames(f) {
-					anywhere[k] = true
-				}
-			}
-			switch {
-			case inside["createDefaultHandle"] && inside["newConnection"]:
-				perConn, recognised = true, true
-			case anywhere["createDefaultHandle"] && anywhere["newConnection"]:
-				perConn, recognised = false, true // called, but not per accepted connection
-			default:
-				why = "no call site of createDefaultHandle / newConnection found"
-			}
-		}
-	}
-	if recognised && perConn {
-		if nc := findFunc(svc, "", "newConnection"); nc == nil {
-			recognised, why = false, "newConnection not found"
-		} else {
-			made, other := map[string]bool{}, map[string]bool{}
-			ast.Inspect(nc.Body, func(n ast.Node) bool {
-				if kv, ok := n.(*ast.KeyValueExpr); ok {
-					if k, ok := kv.Key.(*ast.Ident); ok {
-						fresh := false
-						if call, ok := kv.Value.(*ast.CallExpr); ok {
-							if f, ok := call.Fun.(*ast.Ident); ok && (f.Name == "make" || f.Name == "uint16") {
-								fresh = true
-							}
-						}
-						if lit, ok := kv.Value.(*ast.BasicLit); ok && lit.Kind == token.INT {
-							fresh = true
-						}
-						if fresh {
-							made[k.Name] = true
-						} else {
-							other[k.Name] = true
 						}
 					}
 				}
 				return true
 			})
-			for _, fld := range []string{"msgChan", "reissuePackChan", "platformSerialNumber"} {
+		}
+		wrapperHasReplyBody := findFunc(term, "defaultHandle", "ReplyBody") != nil
+		var rows []string
+		for _, el := range lit.Elts {
+			kv, ok := el.(*ast.KeyValueExpr)
+			if !ok {
+				fail("sim_registry", "element")
+				return
+			}
+			id, ok := intOf(kv.Key, nil)
+			if !ok {
+				fail("sim_registry", "key")
+				return
+			}
+			typ, isWrapped := "", false
+			switch v := kv.Value.(type) {
+			case *ast.UnaryExpr:
+				typ = firstModelLit(v)
+			case *ast.CallExpr:
+				if fn, ok := v.Fun.(*ast.Ident); ok {
+					if fn.Name == "newDefaultHandle" && len(v.Args) == 1 {
+						if c, ok := intOf(v.Args[0], nil); ok {
+							typ, isWrapped = wrapped[c], true
+						}
+					} else if cf := findFunc(term, "", fn.Name); cf != nil {
+						typ = firstModelLit(cf.Body)
+					}
+				}
+			}
+			rid, ok2 := constMethod(model, typ, "ReplyProtocol", 0)
+			prot, ok3 := constMethod(model, typ, "Protocol", 0)
+			decl, ok4 := replyBodyDeclarer(model, typ, 0)
+			if isWrapped {
+				if !wrapperHasReplyBody {
+					fail("sim_registry", "defaultHandle.ReplyBody not found")
+					return
+				}
+				decl, ok4 = 65535, true
+			}
+			if typ == "" || !ok2 || !ok3 || !ok4 {
+				fail("sim_registry", fmt.Sprintf("handler of %d (%s)", id, typ))
+				return
+			}
+			rows = append(rows, fmt.Sprintf("(%d, (%d, %d, %d))", id, rid, prot, decl))
+		}
+		fmt.Fprintf(&out, "(* terminal defaultProtocolHandles in source order: (command, (ReplyProtocol, Protocol, ReplyBody declarer)) *)\n")
+		fmt.Fprintf(&out, "Definition gen_sim_registry : list (N * (N * N * N)) := [%s].\n\n", strings.Join(rows, "; "))
+	}()
+	func() { // independent part: a shape not recognised here must not hide the other outputs
+		// --- the server: which ReplyBody each registered type ends up with
+		sf := findFunc(svc, "GoJT808", "createDefaultHandle")
+		if sf == nil {
+			fail("reply_body_decl", "createDefaultHandle not found")
+			return
+		}
+		sl := mapLiteral(sf)
+		if sl == nil {
+			fail("reply_body_decl", "map literal not found")
+			return
+		}
+		var rows []string
+		for _, el := range sl.Elts {
+			kv := el.(*ast.KeyValueExpr)
+			id, ok := intOf(kv.Key, nil)
+			typ := firstModelLit(kv.Value)
+			decl, ok2 := replyBodyDeclarer(model, typ, 0)
+			if !ok || typ == "" || !ok2 {
+				fail("reply_body_decl", fmt.Sprintf("handler of %d (%s)", id, typ))
+				return
+			}
+			rows = append(rows, fmt.Sprintf("(%d, %d)", id, decl))
+		}
+		fmt.Fprintf(&out, "(* createDefaultHandle in source order: (registered id, ReplyBody declarer) *)\n")
+		fmt.Fprintf(&out, "Definition gen_reply_body_decl : list (N * N) := [%s].\n\n", strings.Join(rows, "; "))
+	}()
+	func() { // independent part: a shape not recognised here must not hide the other outputs
+		// --- per-connection construction.  Three outcomes:
+		//   true   RECOGNISED and right: inside GoJT808.Run's accept loop (the `for` that calls AcceptTCP), directly or
+		//          through ONE level of helper function / method of this package called in the loop, both
+		//          createDefaultHandle() and newConnection(...) are called; every value of createDefaultHandle's map literal
+		//          is a fresh &model.T{} (checked above); newConnection's composite literal makes msgChan / reissuePackChan
+		//          and sets platformSerialNumber
+		//   false  RECOGNISED and wrong: createDefaultHandle (or newConnection) is called, but NOT inside the loop (a
+		//          handler map built once and shared), or newConnection's literal takes one of the three fields from
+		//          something that is not made per call
+		//   (omitted, listed in gen_unrecognised) the shape is NOT recognised: no accept loop / no call site of
+		//          createDefaultHandle anywhere / newConnection or its literal not found.  bin/check then reports the tie as
+		//          unavailable (NOTE) and the correspondence decides; it never reports a broken obligation for it.
+		calledNames := func(n ast.Node) map[string]bool {
+			seen := map[string]bool{}
+			ast.Inspect(n, func(m ast.Node) bool {
+				if c, ok := m.(*ast.CallExpr); ok {
+					switch f := c.Fun.(type) {
+					case *ast.SelectorExpr:
+						seen[f.Sel.Name] = true
+					case *ast.Ident:
+						seen[f.Name] = true
+					}
+				}
+				return true
+			})
+			return seen
+		}
+		funcByName := func(name string) *ast.FuncDecl { // any function or method of package service with that name
+			for _, f := range svc {
+				for _, d := range f.Decls {
+					if fd, ok := d.(*ast.FuncDecl); ok && fd.Name.Name == name && fd.Body != nil {
+						return fd
+					}
+				}
+			}
+			return nil
+		}
+		perConn, recognised, why := false, false, ""
+		if run := findFunc(svc, "GoJT808", "Run"); run == nil {
+			why = "GoJT808.Run not found"
+		} else {
+			var loop *ast.ForStmt
+			ast.Inspect(run.Body, func(n ast.Node) bool {
+				if fs, ok := n.(*ast.ForStmt); ok && loop == nil && calledNames(fs.Body)["AcceptTCP"] {
+					loop = fs
+				}
+				return true
+			})
+			if loop == nil {
+				why = "no accept loop (for ... AcceptTCP) in GoJT808.Run"
+			} else {
+				inside := calledNames(loop.Body)
+				for name := range calledNames(loop.Body) { // one level of helper
+					if name == "createDefaultHandle" || name == "newConnection" {
+						continue
+					}
+					if fd := funcByName(name); fd != nil {
+						for k := range calledNames(fd.Body) {
+							inside[k] = true
+						}
+					}
+				}
+				// every call site of the two constructors in the package
+				anywhere := map[string]bool{}
+				for _, f := range svc {
+					for k := range calledNames(f) {
+						anywhere[k] = true
+					}
+				}
 				switch {
-				case made[fld]:
-				case other[fld]:
-					perConn = false // the field is set from something not made per call
+				case inside["createDefaultHandle"] && inside["newConnection"]:
+					perConn, recognised = true, true
+				case anywhere["createDefaultHandle"] && anywhere["newConnection"]:
+					perConn, recognised = false, true // called, but not per accepted connection
 				default:
-					recognised, why = false, "newConnection's literal has no field "+fld
+					why = "no call site of createDefaultHandle / newConnection found"
 				}
 			}
 		}
-	}
-	if recognised {
-		fmt.Fprintf(&out, "(* GoJT808.Run: createDefaultHandle() and newConnection() are called inside the accept loop (directly or through one helper); newConnection makes msgChan, reissuePackChan and sets platformSerialNumber *)\n")
-		fmt.Fprintf(&out, "Definition gen_handles_per_connection : bool := %t.\n\n", perConn)
-	} else {
-		fail("handles_per_connection", why)
-	}
-	// --- the message ids connection.onActiveRespondEvent can hand to a waiting SendActiveMessage caller
-	// (the cases of its switch, in source order; the writer tries it only when hasComplete())
-	if rf := findFunc(svc, "connection", "onActiveRespondEvent"); rf != nil {
-		if ids := caseValues(rf, nil); len(ids) > 0 {
-			fmt.Fprintf(&out, "(* connection.onActiveRespondEvent: the message ids of its switch, in source order (the order is not behaviour) *)\n")
-			fmt.Fprintf(&out, "Definition gen_active_respond_ids : list N := %s.\n\n", nlist(ids))
-		} else {
-			fail("active_respond_ids", "no switch cases with constant ids in onActiveRespondEvent")
+		if recognised && perConn {
+			if nc := findFunc(svc, "", "newConnection"); nc == nil {
+				recognised, why = false, "newConnection not found"
+			} else {
+				made, other := map[string]bool{}, map[string]bool{}
+				ast.Inspect(nc.Body, func(n ast.Node) bool {
+					if kv, ok := n.(*ast.KeyValueExpr); ok {
+						if k, ok := kv.Key.(*ast.Ident); ok {
+							fresh := false
+							if call, ok := kv.Value.(*ast.CallExpr); ok {
+								if f, ok := call.Fun.(*ast.Ident); ok && (f.Name == "make" || f.Name == "uint16") {
+									fresh = true
+								}
+							}
+							if lit, ok := kv.Value.(*ast.BasicLit); ok && lit.Kind == token.INT {
+								fresh = true
+							}
+							if fresh {
+								made[k.Name] = true
+							} else {
+								other[k.Name] = true
+							}
+						}
+					}
+					return true
+				})
+				for _, fld := range []string{"msgChan", "reissuePackChan", "platformSerialNumber"} {
+					switch {
+					case made[fld]:
+					case other[fld]:
+						perConn = false // the field is set from something not made per call
+					default:
+						recognised, why = false, "newConnection's literal has no field "+fld
+					}
+				}
+			}
 		}
-	} else {
-		fail("active_respond_ids", "onActiveRespondEvent not found")
-	}
+		if recognised {
+			fmt.Fprintf(&out, "(* GoJT808.Run: createDefaultHandle() and newConnection() are called inside the accept loop (directly or through one helper); newConnection makes msgChan, reissuePackChan and sets platformSerialNumber *)\n")
+			fmt.Fprintf(&out, "Definition gen_handles_per_connection : bool := %t.\n\n", perConn)
+		} else {
+			fail("handles_per_connection", why)
+		}
+	}()
+	func() { // independent part: a shape not recognised here must not hide the other outputs
+		// --- the message ids connection.onActiveRespondEvent can hand to a waiting SendActiveMessage caller
+		// (the cases of its switch, in source order; the writer tries it only when hasComplete())
+		if rf := findFunc(svc, "connection", "onActiveRespondEvent"); rf != nil {
+			if ids := caseValues(rf, nil); len(ids) > 0 {
+				fmt.Fprintf(&out, "(* connection.onActiveRespondEvent: the message ids of its switch, in source order (the order is not behaviour) *)\n")
+				fmt.Fprintf(&out, "Definition gen_active_respond_ids : list N := %s.\n\n", nlist(ids))
+			} else {
+				fail("active_respond_ids", "no switch cases with constant ids in onActiveRespondEvent")
+			}
+		} else {
+			fail("active_respond_ids", "onActiveRespondEvent not found")
+		}
+	}()
 }
 
 // ==== END C20/C06 addition ================================================================================
 
 // ==== T3: terminal parameters (coordinator) =================================================================
 // gen_param_struct : TerminalParamDetails' ParamContent[...] fields in declaration order:
-//     (field name, id read from the name's T0xNNN prefix, kind of the type parameter)
+//
+//	(field name, id read from the name's T0xNNN prefix, kind of the type parameter)
+//
 // gen_param_cases  : parseParam's switch in source order: (kind of the ParamContent[T] literal the clause builds, ids)
 // gen_param_assign : (id, field) for every `case id: t.<field> = x` of parseParam{DWORD,WORD,Byte,String} and every
-//     direct `t.<field> = ParamContent[..]{..}` in a clause of parseParam
+//
+//	direct `t.<field> = ParamContent[..]{..}` in a clause of parseParam
+//
 // kinds: 1 uint32, 2 uint16, 3 byte, 4 string, 5 [4]byte, 6 [8]byte, 7 []byte (unknown content), 0 other
 func paramKindOf(e ast.Expr) int {
 	ix, ok := e.(*ast.IndexExpr)
@@ -2451,7 +2465,10 @@ func frameLayout(repo string) {
 						return
 					}
 				case len(args) == 3: // byte(h.PlatformSerialNumber>>8), byte(h.PlatformSerialNumber&0xFF)
-					isPS := func(e ast.Expr) bool { p := hdrPath(e); return len(p) == 2 && p[0] == recv && p[1] == "PlatformSerialNumber" }
+					isPS := func(e ast.Expr) bool {
+						p := hdrPath(e)
+						return len(p) == 2 && p[0] == recv && p[1] == "PlatformSerialNumber"
+					}
 					for _, a := range args[1:] {
 						pre, mask, post, trunc, ok := hdrExtract(a, isPS)
 						if !ok || trunc != 256 || post != 0 {
@@ -3292,9 +3309,9 @@ func main() {
 	simRegistry(parseDir(filepath.Join(*repo, "terminal")), svc, model) // C20/C06 addition
 	paramTable(model)
 	fixedLayouts(model) // T7 (C07)
-	frameLayout(*repo)    // header layout of the JT/T 808 frame (C01 C02 C04)
-	jt1078Layout(*repo)   // header layout of the JT/T 1078 packet (C17)
-	attachLayout(*repo)   // chunk header of the attachment stream (C15)
+	frameLayout(*repo)  // header layout of the JT/T 808 frame (C01 C02 C04)
+	jt1078Layout(*repo) // header layout of the JT/T 1078 packet (C17)
+	attachLayout(*repo) // chunk header of the attachment stream (C15)
 	q := make([]string, len(unrecognised))
 	for i, u := range unrecognised {
 		q[i] = strconv.Quote(u) + "%string"
